@@ -1,5 +1,6 @@
 import Zlink.Proofs.ServerFair
 import Zlink.Proofs.ServerQuiet
+import Zlink.Proofs.ServerFairRun
 /-! # C18 — Round-robin service: a flooding client cannot starve the others
 
 Models: `Zlink/Model/Select.lean` (`server/select_all.rs`: the rotated scan) and the server loop's use of it
@@ -78,11 +79,63 @@ theorem C18_bounded_bypass (N : Nat) :
     rw [Nat.succ_mul]
     omega
 
+
+/-- **C18, first sentence, as a theorem about whole stretches of the server loop** (not about an abstract
+    sequence of scans): connection `a` has just been served. Over ANY stretch of consecutive iterations of
+    `Server::run` during which nothing is accepted and the connection list keeps its length (nobody removed,
+    parked as a stream or handed back — `C18_positions_are_connections`: then the same clients sit at the same
+    positions), if connection `b ≠ a` has a complete call waiting at every scan and is never the one served, then
+    `a` is never served again either, however many calls it has pipelined or keeps sending. -/
+theorem C18_server_no_double_service (C : Rx.Consts) (sizes : Nat → Nat) (n a b : Nat) (hn : 0 < n) (ha : a < n)
+    (hb : b < n) (hab : b ≠ a) (s : Srv.S) (t : List Srv.S) (hrun : Srv.IsRun C sizes s t)
+    (hlast : s.lastCall = some a)
+    (hall : ∀ x ∈ s :: t, x.listenQ = [] ∧ x.conns.length = n)
+    (hready : ∀ x ∈ (s :: t).dropLast, Srv.readyOf C sizes x.conns b = true)
+    (hnb : ∀ x ∈ t, x.lastCall ≠ some b) : ∀ x ∈ t, x.lastCall ≠ some a :=
+  Srv.server_no_double_service C sizes n a b hn ha hb hab s t hrun hlast hall hready hnb
+
+/-- **Bounded waiting on the server loop**: over such a stretch a connection with a call waiting at every scan
+    is served after at most `n - 1` iterations (other calls). -/
+theorem C18_server_phase_bound (C : Rx.Consts) (sizes : Nat → Nat) (n b : Nat) (hn : 0 < n) (hb : b < n)
+    (s : Srv.S) (t : List Srv.S) (hrun : Srv.IsRun C sizes s t)
+    (hall : ∀ x ∈ s :: t, x.listenQ = [] ∧ x.conns.length = n)
+    (hready : ∀ x ∈ (s :: t).dropLast, Srv.readyOf C sizes x.conns b = true)
+    (hnb : ∀ x ∈ t, x.lastCall ≠ some b) : t.length ≤ n - 1 :=
+  Srv.server_phase_bound C sizes n b hn hb s t hrun hall hready hnb
+
+/-- The service order of such a stretch **is** the `winners` sequence the abstract theorems speak about. -/
+theorem C18_run_is_winners (C : Rx.Consts) (sizes : Nat → Nat) (n b : Nat) (hn : 0 < n) (hb : b < n)
+    (s : Srv.S) (t : List Srv.S) (hrun : Srv.IsRun C sizes s t)
+    (hall : ∀ x ∈ s :: t, x.listenQ = [] ∧ x.conns.length = n)
+    (hready : ∀ x ∈ (s :: t).dropLast, Srv.readyOf C sizes x.conns b = true) :
+    t.map (fun x => x.lastCall) = winners n (Srv.nextStart s) (Srv.readys C sizes (s :: t).dropLast) :=
+  Srv.run_winners C sizes n b hn hb t s hrun hall hready
+
+/-- While the connection list keeps its length, positions are connections. -/
+theorem C18_positions_are_connections (C : Rx.Consts) (sizes : Nat → Nat) (s s' : Srv.S) (hq : s.listenQ = [])
+    (h : Srv.iter C sizes s = some s') (hlen : s'.conns.length = s.conns.length) :
+    s'.conns.map (·.id) = s.conns.map (·.id) :=
+  Srv.iter_ids_stable C sizes s s' hq h hlen
+
 /-! ## Non-vacuity: a flooder (index 0, always ready) and a single caller (index 2) -/
 namespace Example
 def flood : Nat → Bool := fun j => j == 0
 def both : Nat → Bool := fun j => j == 0 || j == 2
 /-- 0 has just been served; 2 becomes ready: it wins the very next scan, then 0 again. -/
 example : winners 3 (0 + 1) [both, both, flood] = [some 2, some 0, some 0] := by decide
+
+/-- the same on the server model: a flooder (client 0, four calls buffered) and a single caller (client 1);
+    after the flooder's first call the single caller is served before the flooder's second one -/
+def C : Rx.Consts := { step := 8, max := 1000 }
+def mk (id : Nat) (frames : List (List Rx.Byte)) (descs : List Srv.Desc) : Srv.Conn :=
+  { id := id, rx := Rx.init C, net := Rx.net0, calls := descs, out := [], wfail := none, nwrites := 0, credit := 0,
+    good := true, frames := frames, descs := descs, fut := Rx.enc frames, k := 0 }
+def flooder : Srv.Conn := mk 0 [[1], [2], [3], [4]] [.echo 1 false, .echo 2 false, .echo 3 false, .echo 4 false]
+def single : Srv.Conn := mk 1 [[9]] [.echo 9 false]
+def s0 : Srv.S := Srv.runEvs C (fun _ => 100) [.connect flooder, .connect single, .run 2, .arrive 0 [1, 0, 2, 0, 3, 0, 4, 0], .arrive 1 [9, 0], .run 1] Srv.init
+def after (k : Nat) : Srv.S := Srv.pollServer C (fun _ => 100) k s0
+example : s0.lastCall = some 0 ∧ (after 1).lastCall = some 1 ∧ (after 2).lastCall = some 0
+    ∧ s0.conns.length = 2 ∧ (after 1).conns.length = 2 ∧ Srv.readyOf C (fun _ => 100) s0.conns 1 = true
+    ∧ (Srv.iter C (fun _ => 100) s0).map (·.lastCall) = some (some 1) := by decide
 end Example
 end C18
